@@ -96,6 +96,91 @@ async def probe(port, timeout=5.0):
         c.close()
 
 
+async def udp_outage(out, args, wd):
+    """a reverse-UDP client with a fixed source port across an outage of its origin: while the origin is gone the client keeps
+    sending (the proxy's upstream socket gets ICMP errors, the session ends in an error); when the origin is back the SAME client
+    address must be served again within a few datagrams, without restarting the proxy"""
+    import socket
+    loop = asyncio.get_running_loop()
+    oport = free_port()
+
+    def origin_sock():
+        o = socket.socket(socket.AF_INET, socket.SOCK_DGRAM)
+        o.bind(("127.0.0.1", oport))
+        o.setblocking(False)
+        return o
+
+    async def echo_loop(o):
+        try:
+            while True:
+                d, a = await loop.sock_recvfrom(o, 65536)
+                await loop.sock_sendto(o, b"echo:" + d, a)
+        except (asyncio.CancelledError, OSError):
+            pass
+    P = {k: free_port() for k in ("rev", "api")}
+    U = Proxy(args.bin, base_cfg([{"name": "rev", "type": "reverse", "protocol": "udp", "bind": "127.0.0.1:%d" % P["rev"], "target": "127.0.0.1:%d" % oport}], [{"name": "direct"}],
+                                 [{"target": "direct"}], metrics_port=P["api"], timeouts={"idle": 600, "udp": 60}), "U", wd)
+    o = origin_sock()
+    et = asyncio.ensure_future(echo_loop(o))
+    c = socket.socket(socket.AF_INET, socket.SOCK_DGRAM)
+    c.bind(("127.0.0.1", 0))
+    c.setblocking(False)
+
+    async def ask(sock, data, timeout=1.0):
+        await loop.sock_sendto(sock, data, ("127.0.0.1", P["rev"]))
+        t_end = now() + timeout
+        while now() < t_end:
+            try:
+                d, _ = await asyncio.wait_for(loop.sock_recvfrom(sock, 65536), max(0.05, t_end - now()))
+                if d == b"echo:" + data:
+                    return True
+            except asyncio.TimeoutError:
+                break
+            except OSError:
+                await asyncio.sleep(0.05)
+        return False
+    try:
+        await U.start()
+        await asyncio.sleep(0.2)
+        for rnd in range(2 if not args.thorough else 4):
+            out.case()
+            if not (await ask(c, b"before-%d" % rnd) or await ask(c, b"before2-%d" % rnd)):
+                out.violation("upstream unusable before any fault: udp origin via direct", {"round": rnd})
+                return
+            et.cancel()
+            o.close()
+            for i in range(6):
+                await ask(c, b"during-%d-%d" % (rnd, i), 0.3)
+            o = origin_sock()
+            et = asyncio.ensure_future(echo_loop(o))
+            attempts = 0
+            ok = False
+            while attempts < 8 and not ok:
+                attempts += 1
+                ok = await ask(c, b"after-%d-%d" % (rnd, attempts), 1.0)
+            out.nontrivial(("udp", "origin-outage", rnd, ok))
+            if not ok:
+                c2 = socket.socket(socket.AF_INET, socket.SOCK_DGRAM)
+                c2.bind(("127.0.0.1", 0))
+                c2.setblocking(False)
+                fresh = await ask(c2, b"fresh-%d" % rnd) or await ask(c2, b"fresh2-%d" % rnd)
+                c2.close()
+                out.violation("no recovery after the upstream became reachable again: udp client with a fixed source port (reverse listener via direct)",
+                              {"attempts": attempts, "a_client_on_a_fresh_port_is_served": fresh, "U.stderr": U.stderr_tail(300)})
+                return
+            out.sample({"scenario": "udp origin outage, same client port", "round": rnd, "datagrams_until_served_again": attempts})
+        if not U.alive():
+            out.violation("proxy process died during upstream outages", {"rc": U.exit_status(), "stderr": U.stderr_tail(600)})
+    finally:
+        et.cancel()
+        try:
+            o.close()
+        except Exception:
+            pass
+        c.close()
+        U.kill()
+
+
 async def main(args):
     from . import lib as _lib
     _lib.UNIQUE_SRC = True   # records are joined with connections by source port
@@ -389,7 +474,7 @@ async def main(args):
         await A.start()
         hs = asyncio.ensure_future(healthy_stream())
         await asyncio.sleep(0.3)
-        await asyncio.gather(*[run_scenario(s) for s in scen])
+        await asyncio.gather(*([run_scenario(s) for s in scen] + [udp_outage(out, args, wd)]))
         stop_healthy.set()
         await hs
         bad = [(round(t, 1), r, round(l, 2)) for (t, r, l) in healthy if r != "ok" or l > 2.0]
